@@ -216,7 +216,7 @@ claim('C18', 'model_checking',
       '(a) matcher: for every pattern skeleton "/" + up to 2 (quick) / 3 tokens over literals, ?, *, sets, ranges, '
       'negated sets and alternatives, the regex the real matcher passes to `re` (rewrite table executed, entry point '
       'observed) is converted to a z3 regular expression and z3 decides language equality with the OSC 1.0 meaning for '
-      'printable-ASCII keys of ANY length; (b) all dispatch histories of 5 (quick) / 6 operations over create / enable / '
+      'printable-ASCII keys of ANY length; (b) all dispatch histories of 5 operations (thorough: richer responder sets) over create / enable / '
       'disable / one_shot / free / replace function / CmdPeriod / message with a symbolic int argument, against a '
       'reference dispatcher: exactly the enabled matching responders fire, once, in registration order per path, with '
       'message, time, sender, port; every combination of source (with and without port) / receive-port filters x sender '
